@@ -39,7 +39,10 @@ PARSERS = {
 ALIASES = {"Visibility": {"v0-40": "NONE", "v40-60": "PARTIAL", "v60-80": "MOST", "v80-100": "FULL"}}
 FALLBACK = {"Visibility": "UNAVAILABLE"}
 NON_MEMBERS = ["", " ", "foo", "detection3d", "base_link ", " base_link", "lidar_", "bounding-box", "box",
-               "none_", "v0-41", "v100", "not_available", "default_", "allow", "123", "map2", "None", "null"]
+               "none_", "v0-41", "v100", "not_available", "default_", "allow", "123", "map2", "None", "null",
+               # near misses of the visibility aliases (zero padding, other separators) and of frame names (tf-style prefixes)
+               "v00-40", "v0-040", "v040-060", "v080-100", "v40-060", "v0_40", "0-40", "v0-40%", "V0-40 ",
+               "/map", "//MAP", "robot1/base_link", "map/base_link", "/base_link", "base_link/", "tf/cam_front"]
 
 
 # letters whose upper case is plain ASCII although they are not the lower case of any ASCII letter (long s, dotless i, ligatures):
@@ -132,6 +135,11 @@ def run_unit(unit, acc):
     elif unit["kind"] == "keys":
         for dst in FrameID:
             check_case({"kind": "keys", "src": unit["src"], "dst": dst.name}, acc)
+        if unit["src"] == list(FrameID)[0].name:
+            lowered = {x.value.lower() for x in FrameID} | {x.name.lower() for x in FrameID}
+            for s_ in NON_MEMBERS:
+                if s_.lower() not in lowered:
+                    check_case({"kind": "key_nonmember", "arg": s_}, acc)
     elif unit["kind"] == "task_spelling":
         for m in EvaluationTask:
             check_case({"kind": "task_spelling", "task": m.name}, acc)
@@ -269,6 +277,21 @@ def check_case(case, acc):
         if not ok:
             acc.violation("parse:EvaluationTask.set_task_lists:order", "set_task_lists(%s) returned %r: every entry must name its member, in input order" % ([m.value for m in members], got[1]), case)
         acc.state(("task_lists", len(members), ok), nontrivial=len(set(case["tasks"])) > 1)
+    elif k == "key_nonmember":
+        s_ = case["arg"]
+        outs = {}
+        for nm, fn in (("FrameID.from_value", lambda: FrameID.from_value(s_)), ("TransformKey(src)", lambda: TransformKey(s_, FrameID.MAP)),
+                       ("TransformKey(dst)", lambda: TransformKey(FrameID.BASE_LINK, s_)),
+                       ("HomogeneousMatrix(src)", lambda: HomogeneousMatrix((0.0, 0.0, 0.0), (1.0, 0.0, 0.0, 0.0), s_, FrameID.MAP)),
+                       ("TransformDict.get", lambda: TransformDict(HomogeneousMatrix((1.0, 0.0, 0.0), (1.0, 0.0, 0.0, 0.0), FrameID.BASE_LINK, FrameID.MAP)).get((s_, FrameID.MAP)))):
+            acc.exec()
+            o = _outcome(lambda _unused, fn=fn: fn(), None)
+            outs[nm] = "rejected" if (o[0] == "exc" or o[1] is None) else "accepted"
+        acc.compared()
+        acc.state(("key_nonmember", tuple(sorted(outs.items()))), nontrivial=True)
+        for nm, oc in outs.items():
+            if oc != "rejected":
+                acc.violation("keys:non-member-accepted", "%s accepts the string %r, which names no frame" % (nm, s_), case)
     elif k == "task_dict":
         d = {key: {"payload": i} for i, key in enumerate(case["keys"])}
         acc.exec()
